@@ -26,13 +26,14 @@ import (
 )
 
 type round struct {
-	Doc          string   `json:"document"`
-	FailRelays   []int    `json:"failing_relays,omitempty"`
-	FailNodes    []int    `json:"failing_nodes,omitempty"`
-	FailSigning  []string `json:"validators_failing_to_sign,omitempty"`
-	FailSignOnce []string `json:"validators_whose_first_signing_request_fails,omitempty"`
-	SleepBefore  bool     `json:"one_second_pause_before,omitempty"`
-	Unresolvable []string `json:"unresolvable_validators,omitempty"`
+	RefreshFailedAfter bool     `json:"a_failing_refresh_followed_the_good_one,omitempty"`
+	Doc                string   `json:"document"`
+	FailRelays         []int    `json:"failing_relays,omitempty"`
+	FailNodes          []int    `json:"failing_nodes,omitempty"`
+	FailSigning        []string `json:"validators_failing_to_sign,omitempty"`
+	FailSignOnce       []string `json:"validators_whose_first_signing_request_fails,omitempty"`
+	SleepBefore        bool     `json:"one_second_pause_before,omitempty"`
+	Unresolvable       []string `json:"unresolvable_validators,omitempty"`
 }
 
 func builderDomain() phase0.Domain {
@@ -171,6 +172,12 @@ func history(c *harness.Ctx, id string, r *rand.Rand) {
 		}
 		env.Config.Set(relaycommon.Outcome{Kind: "valid", Doc: rd.Doc})
 		env.Refresh()
+		if r.Intn(4) == 0 {
+			// a later refresh fails (source down): the round goes by the configuration obtained last
+			env.Config.Set(relaycommon.Outcome{Kind: []string{"error", "not-found", "malformed"}[r.Intn(3)]})
+			env.Refresh()
+			rd.RefreshFailedAfter = true
+		}
 		env.Register()
 		if err := env.Prep.UpdatePreparations(ctx); err != nil {
 			c.Violate("update-preparations-error", err.Error(), id, detail())
@@ -547,7 +554,7 @@ func main() {
 	harness.Main(&harness.Spec{
 		Property:     "C11",
 		Level:        "exploration",
-		Rule:         "histories of 2-4 rounds {set configuration (grammar-generated v2 documents A/B/A..., optionally with a trailing unresolvable proposer entry), refresh, registration round, proposal preparations} over 2-5 validators (real BLS keys), 4 relays and 2 beacon nodes, with random subsets of failing relays, failing beacon nodes and validators whose signing fails, and one-second pauses between some rounds; finally registrations arriving over REST; plus rounds held in flight at a slow relay (which gives up when its request context ends) while another relay fails at once and a beacon node hands in registrations for a controlled and a foreign validator. distinct = (validators, multiset of per-round fault patterns)",
+		Rule:         "histories of 2-4 rounds {set configuration (grammar-generated v2 documents A/B/A..., optionally with a trailing unresolvable proposer entry), refresh, registration round, proposal preparations} over 2-5 validators (real BLS keys), 4 relays and 2 beacon nodes, with random subsets of failing relays, failing beacon nodes and validators whose signing fails, and one-second pauses between some rounds, sometimes with a failing refresh after the good one; beacon nodes refuse requests containing a null entry; finally registrations arriving over REST; plus rounds held in flight at a slow relay (which gives up when its request context ends) while another relay fails at once and a beacon node hands in registrations for a controlled and a foreign validator. distinct = (validators, multiset of per-round fault patterns)",
 		Batches:      func(string) int { return 2 },
 		Parallel:     2,
 		Run:          run,
